@@ -287,6 +287,16 @@ func CountFiles(t *rapid.T, cfg *telemetry.UploadConfig, ends []time.Time, o Fil
 			base += "@" + f.Version
 		}
 		base = fmt.Sprintf("%s-%s-%s-%s-%s", base, f.GoVersion, f.GOOS, f.GOARCH, f.Begin.Format("2006-01-02"))
+		// What a counter file means is in its metadata, not in its name: one name in eight says something else
+		// (another date, another program, no structure at all).
+		switch rapid.IntRange(0, 23).Draw(t, "oddFileName") {
+		case 0:
+			base = fmt.Sprintf("%s-%s-%s-%s-%s", path.Base(f.Program), f.GoVersion, f.GOOS, f.GOARCH, f.End.AddDate(0, 0, 9).Format("2006-01-02"))
+		case 1:
+			base = "other@v9.9.9-go1.1-plan9-mips-2001-01-01"
+		case 2:
+			base = fmt.Sprintf("data%d", len(files))
+		}
 		for k := 0; usedNames[base]; k++ {
 			base = fmt.Sprintf("%s_%d", base, k)
 		}
